@@ -168,6 +168,17 @@ pub fn replay_c20(v: &Value) -> Vec<Failure> {
     let mut out = vec![];
     let mut w = Worker::spawn();
     match v.get("kind").and_then(|k| k.as_str()) {
+        Some("long_flight") => {
+            let n = v["n"].as_u64().unwrap_or(6000) as usize;
+            let frames = tracker::flight_frames(n);
+            let std_final = transcript::history_final(&frames, (52.0, 4.0), 500.0);
+            let ans = w.ask(&[format!("HF 52 4 500 {}", frames.iter().map(|f| bits::hex(f)).collect::<Vec<_>>().join(","))]);
+            if let Some(a) = ans.first() {
+                if norm(a) != norm(&std_final) {
+                    out.push(Failure { sig: "C20/long_flight_differs".into(), msg: format!("final tracker state differs between the builds: {}", first_diff(&std_final, a)), replay: v.clone() });
+                }
+            }
+        }
         Some("frame") => {
             let Some(b) = v.get("hex").and_then(|h| h.as_str()).and_then(bits::unhex) else { return out };
             let a = transcript::frame_transcript(&b, &mut None);
@@ -323,6 +334,24 @@ pub fn run_c20(ctx: &Ctx) -> ! {
         }
     });
     st.notes.insert("worker".into(), json!("harness/vworker: libraries built with default-features = false, features = [\"alloc\"]"));
+    // ---- a long flight of one aircraft (its track grows with every report): the final state of
+    // the std build equals that of the alloc-only build
+    {
+        let n = ctx.tier.pick(6_000usize, 30_000);
+        let frames = tracker::flight_frames(n);
+        let std_final = transcript::history_final(&frames, (52.0, 4.0), 500.0);
+        let mut worker = Worker::spawn();
+        let req = format!("HF 52 4 500 {}", frames.iter().map(|f| bits::hex(f)).collect::<Vec<_>>().join(","));
+        let ans = worker.ask(&[req]);
+        st.evaluations += n as u64;
+        st.nontrivial_enum += 1;
+        st.class("long flight, final state in both builds");
+        if let Some(a) = ans.first() {
+            if norm(a) != norm(&std_final) {
+                st.fail(Failure { sig: "C20/long_flight_differs".into(), msg: format!("after {n} position reports of one aircraft the final tracker state differs between the builds: {}", first_diff(&std_final, a)), replay: json!({"kind": "long_flight", "n": n}) });
+            }
+        }
+    }
     finish(
         ctx,
         st,
